@@ -1,6 +1,215 @@
+/-
+Helper lemmas for `Bolt.Props.C12Bk`: the independent reader of `Model/Format.lean` on the
+elements of a leaf page that may hold nested buckets — one element at a time (`decodeItem`): a
+plain value, a nested bucket with its own pages (the reader goes on at the root page named in the
+16-byte header), an inline bucket (the leaf image inside the value is read back) — and the
+look-up of an attached nested bucket by name.
+-/
 import Bolt.Lemmas.FormatTree
 import Bolt.Model.BktInv
 namespace Bolt.FormatBkL
-open Bolt Bolt.BTree Bolt.Bkt
+open Bolt Bolt.BTree Bolt.Bkt Bolt.Enc Bolt.FormatTreeL
+
+/-- what `decodeLeafItems` does with one element -/
+def decodeItem (f : File) (ps hwm fuel : Nat) (e : LeafElem) (ph : Phys) : (Bytes × SVal) × Phys :=
+  if e.flags % 2 = 1 then
+    if e.val.length < V2.bucketHeaderSize then ((e.key, SVal.bkt 0 []), ph.err "bucket value shorter than its header") else
+    let root := getLE (e.val.take 8)
+    let seq := getLE ((e.val.drop 8).take 8)
+    if root = 0 then
+      let g : File := { size := e.val.length, get := fun i => e.val.getD i 0 }
+      let h := pageHdrAt g V2.bucketHeaderSize
+      if h.flags ≠ V2.leafPageFlag then ((e.key, SVal.bkt seq []), ph.err "inline bucket page is not a leaf") else
+      match leafElems g V2.bucketHeaderSize e.val.length h.count with
+      | none => ((e.key, SVal.bkt seq []), ph.err "inline bucket element outside its value")
+      | some es =>
+        let ph := if keysAscending (es.map (·.key)) then ph else ph.err "inline bucket keys not ascending"
+        let ph := if es.any (fun x => x.flags % 2 = 1) then ph.err "inline bucket holds a nested bucket" else ph
+        ((e.key, SVal.bkt seq (es.map (fun x => (x.key, SVal.val x.val)))), ph)
+    else
+      let (ents, ph) := decodeTree f ps hwm fuel root ph
+      ((e.key, SVal.bkt seq ents), ph)
+  else ((e.key, SVal.val e.val), ph)
+
+theorem decodeLeafItems_nil (f : File) (ps hwm fuel : Nat) (ph : Phys) :
+    decodeLeafItems f ps hwm fuel [] ph = ([], ph) := by rw [decodeLeafItems]
+
+theorem decodeLeafItems_cons (f : File) (ps hwm fuel : Nat) (e : LeafElem) (rest : List LeafElem) (ph : Phys) :
+    decodeLeafItems f ps hwm fuel (e :: rest) ph =
+      ((decodeItem f ps hwm fuel e ph).1 :: (decodeLeafItems f ps hwm fuel rest (decodeItem f ps hwm fuel e ph).2).1,
+       (decodeLeafItems f ps hwm fuel rest (decodeItem f ps hwm fuel e ph).2).2) := by
+  rw [decodeLeafItems]; rfl
+
+
+theorem decodeItem_plain (f : File) (ps hwm fuel : Nat) (e : LeafElem) (ph : Phys)
+    (h : ¬ e.flags % 2 = 1) : decodeItem f ps hwm fuel e ph = ((e.key, SVal.val e.val), ph) := by
+  unfold decodeItem; rw [if_neg h]
+
+theorem hdr_root (root seq : Nat) (rest : Bytes) (hr : root < 2^64) :
+    getLE ((putLE 8 root ++ putLE 8 seq ++ rest).take 8) = root := by
+  rw [List.append_assoc, List.take_left' (putLE_length 8 root)]
+  exact getLE_putLE_of_lt (by simpa using hr)
+
+theorem hdr_seq (root seq : Nat) (rest : Bytes) (hs : seq < 2^64) :
+    getLE (((putLE 8 root ++ putLE 8 seq ++ rest).drop 8).take 8) = seq := by
+  rw [List.append_assoc, List.drop_left' (putLE_length 8 root), List.take_left' (putLE_length 8 seq)]
+  exact getLE_putLE_of_lt (by simpa using hs)
+
+/-- a nested bucket with its own pages: the reader goes on at the root page of the header -/
+theorem decodeItem_paged (f : File) (ps hwm fuel : Nat) (e : LeafElem) (ph ph' : Phys) (root seq : Nat)
+    (ents : List (Bytes × SVal))
+    (hfl : e.flags % 2 = 1) (hv : e.val = putLE 8 root ++ putLE 8 seq ++ []) (hr0 : root ≠ 0)
+    (hr : root < 2^64) (hs : seq < 2^64)
+    (h : decodeTree f ps hwm fuel root ph = (ents, ph')) :
+    decodeItem f ps hwm fuel e ph = ((e.key, SVal.bkt seq ents), ph') := by
+  unfold decodeItem
+  have hlen : ¬ e.val.length < V2.bucketHeaderSize := by
+    rw [hv]; simp [V2.bucketHeaderSize]
+  rw [if_pos hfl, if_neg hlen]
+  simp only []
+  rw [hv, hdr_root root seq [] hr, hdr_seq root seq [] hs, if_neg hr0, h]
+
+/-- an inline bucket: the leaf image inside the value is read back -/
+theorem decodeItem_inline (f : File) (ps hwm fuel : Nat) (e : LeafElem) (ph : Phys) (seq : Nat)
+    (es : List LeafElem)
+    (hfl : e.flags % 2 = 1) (hv : e.val = putLE 8 0 ++ putLE 8 seq ++ leafPage 0 0 es)
+    (hs : seq < 2^64) (hn : es.length < 0xFFFF) (hlen : e.val.length < 2^32)
+    (hflags : ∀ x ∈ es, x.flags % 2 = 0 ∧ x.flags < 2^32)
+    (hsorted : sortedKeys (es.map (·.key)) = true) :
+    decodeItem f ps hwm fuel e ph =
+      ((e.key, SVal.bkt seq (es.map (fun x => (x.key, SVal.val x.val)))), ph) := by
+  have hvl : e.val.length = 16 + (leafPage 0 0 es).length := by rw [hv]; simp only [List.length_append, putLE_length]
+  have hold : ∀ i, i < (leafPage 0 0 es).length →
+      (fileOf e.val).get (16 + i) = (leafPage 0 0 es).getD i 0 := by
+    intro i hi
+    have := fileOf_get_append (putLE 8 0 ++ putLE 8 seq) (leafPage 0 0 es) i hi
+    rw [hv]
+    simp only [List.length_append, putLE_length] at this
+    rw [this, List.getD_eq_getElem?_getD, List.getElem?_eq_getElem hi]; rfl
+  obtain ⟨hh, he⟩ := leaf_at (fileOf e.val) 16 (leafPage 0 0 es).length 0 0 es hold (by decide) (by decide)
+    hn (by omega) (Nat.le_refl _) (fun x hx => (hflags x hx).2)
+  rw [← hvl] at he
+  have hany : es.any (fun x => x.flags % 2 = 1) = false := by
+    rw [List.any_eq_false]
+    intro x hx
+    have := (hflags x hx).1
+    simp; omega
+  unfold decodeItem
+  have hlen : ¬ e.val.length < V2.bucketHeaderSize := by
+    rw [hvl]; simp [V2.bucketHeaderSize]
+  rw [if_pos hfl, if_neg hlen]
+  have e1 : getLE (e.val.take 8) = 0 := by rw [hv]; exact hdr_root 0 seq _ (by decide)
+  have e2 : getLE ((e.val.drop 8).take 8) = seq := by rw [hv]; exact hdr_seq 0 seq _ hs
+  simp only [e1, e2, if_true]
+  change (if (pageHdrAt (fileOf e.val) 16).flags ≠ V2.leafPageFlag then _ else
+    match leafElems (fileOf e.val) 16 e.val.length (pageHdrAt (fileOf e.val) 16).count with
+    | none => _
+    | some es => _) = _
+  rw [hh]
+  simp only [ne_eq, not_true_eq_false, if_false, he, keysAscending_eq, hsorted, hany, if_true]
+  rfl
+
+
+/-- the reader on a leaf page (bucket elements allowed) held at its page offset: it goes on with
+    the elements -/
+theorem decodeTree_leafG (f : File) (ps hwm fuel pg ov : Nat) (ph : Phys) (es : List LeafElem)
+    (hps : 0 < ps)
+    (hold : ∀ i, i < (leafPage pg ov es).length → f.get (pg * ps + i) = (leafPage pg ov es).getD i 0)
+    (h2 : 2 ≤ pg) (hhwm : pg + ov < hwm) (hw : hwm < 2^64) (hn : es.length < 0xFFFF)
+    (hspan : (ov + 1) * ps < 2^32) (hsz : (leafPage pg ov es).length ≤ (ov + 1) * ps)
+    (hfl : ∀ e ∈ es, e.flags < 2^32)
+    (hsorted : sortedKeys (es.map (·.key)) = true) (hne : ∀ e ∈ es, e.key ≠ []) :
+    decodeTree f ps hwm (fuel + 1) pg ph =
+      decodeLeafItems f ps hwm fuel es
+        { pages := ph.pages ++ [(pg, ov, V2.leafPageFlag)], errors := ph.errors } := by
+  obtain ⟨hh, he⟩ := leaf_at f (pg * ps) ((ov + 1) * ps) pg ov es hold (by omega)
+    (span_lt ov ps hps hspan) hn hspan hsz hfl
+  rw [decodeTree]
+  have hany : es.any (fun e => e.key.isEmpty) = false := by
+    rw [List.any_eq_false]
+    intro e h
+    simp only [List.isEmpty_iff]
+    exact hne e h
+  simp only [hh, he, keysAscending_eq, hsorted, hany]
+  rw [if_neg (show ¬ (pg < 2 ∨ pg ≥ hwm) by omega)]
+  simp only [ne_eq, not_true_eq_false, if_false, if_true]
+  rw [if_neg (show ¬ (pg + ov ≥ hwm) by omega)]
+  rfl
+
+/-- element by element: if every element decodes to `ent e` without a new error, so does the list -/
+theorem decodeLeafItems_spec (f : File) (ps hwm fuel : Nat) (ent : LeafElem → Bytes × SVal) :
+    ∀ (es : List LeafElem) (ph : Phys),
+    (∀ e ∈ es, ∀ ph : Phys, ∃ ph', decodeItem f ps hwm fuel e ph = (ent e, ph') ∧ ph'.errors = ph.errors) →
+    ∃ ph', decodeLeafItems f ps hwm fuel es ph = (es.map ent, ph') ∧ ph'.errors = ph.errors
+  | [], ph, _ => ⟨ph, by rw [decodeLeafItems_nil]; rfl, rfl⟩
+  | e :: rest, ph, h => by
+    obtain ⟨ph1, h1, e1⟩ := h e (List.mem_cons_self ..) ph
+    obtain ⟨ph2, h2, e2⟩ := decodeLeafItems_spec f ps hwm fuel ent rest ph1
+      (fun x hx => h x (List.mem_cons_of_mem _ hx))
+    refine ⟨ph2, ?_, e2.trans e1⟩
+    rw [decodeLeafItems_cons, h1, h2]
+    rfl
+
+/-! ### attached nested buckets by name -/
+
+theorem lookupBk_mem {k : Bytes} {c : Bk} : ∀ {o : List (Bytes × Bk)}, lookupBk k o = some c → (k, c) ∈ o
+  | [], h => by simp [lookupBk] at h
+  | q :: r, h => by
+    unfold lookupBk at h
+    rw [List.find?_cons] at h
+    by_cases hq : (q.1 == k) = true
+    · rw [hq] at h
+      simp only [Option.map_some, Option.some.injEq] at h
+      have : q.1 = k := by simpa using hq
+      obtain ⟨q1, q2⟩ := q
+      simp only at this h
+      subst this; subst h
+      exact List.mem_cons_self ..
+    · have hq' : (q.1 == k) = false := by simpa using hq
+      rw [hq'] at h
+      exact List.mem_cons_of_mem _ (lookupBk_mem (o := r) h)
+
+theorem lookupBk_of_name {k : Bytes} : ∀ {o : List (Bytes × Bk)}, k ∈ o.map (·.1) → ∃ c, lookupBk k o = some c
+  | [], h => by cases h
+  | q :: r, h => by
+    unfold lookupBk
+    rw [List.find?_cons]
+    by_cases hq : (q.1 == k) = true
+    · rw [hq]; exact ⟨q.2, rfl⟩
+    · have hq' : (q.1 == k) = false := by simpa using hq
+      rw [hq']
+      have : k ∈ r.map (·.1) := by
+        rcases List.mem_cons.mp h with h | h
+        · exact absurd (by simp [h]) hq
+        · exact h
+      exact lookupBk_of_name (o := r) this
+
+theorem origOkG_zero (ids : Bool) (b : Bk) : origOkG ids 0 b = false := by rw [origOkG]
+
+theorem origOkG_succ (ids : Bool) (f : Nat) (b : Bk) :
+    origOkG ids (f+1) b = true ↔
+      Committed b.tree ∧ (ids = true → (pgids b.tree).Nodup) ∧ depth b.tree ≤ f ∧
+      b.opened.map (·.1) = bucketNames b.tree ∧ ∀ q ∈ b.opened, origOkG ids f q.2 = true := by
+  cases b with
+  | mk r s t o =>
+    rw [origOkG]
+    cases ids <;>
+    simp only [Bk.tree, Bk.opened, Bool.and_eq_true, decide_eq_true_eq, List.all_eq_true, beq_iff_eq,
+      and_assoc, Bool.not_true, Bool.not_false, Bool.false_or,
+      Bool.true_or, true_and, Bool.false_eq_true, false_imp_iff, forall_const]
+
+/-- a bucket element's key is one of the tree's bucket names -/
+theorem mem_bucketNames {t : N} {i : Item} (hi : i ∈ flatten t) (hf : i.flags % 2 = 1) :
+    i.key ∈ bucketNames t := by
+  unfold bucketNames
+  rw [List.mem_filterMap]
+  exact ⟨i, hi, by rw [if_pos hf]⟩
+
+theorem bucketNames_nil {t : N} (h : bucketNames t = []) : ∀ i ∈ flatten t, i.flags % 2 = 0 := by
+  intro i hi
+  by_cases hf : i.flags % 2 = 1
+  · have := mem_bucketNames hi hf
+    rw [h] at this; cases this
+  · omega
 
 end Bolt.FormatBkL
